@@ -56,7 +56,11 @@ def main():
   if r.returncode != 0:
     print('cannot create worktree: ' + r.stderr)
     return 2
-  meta = {'seed': sid, 'property': prop, 'notes': notes.strip(), 'ran': []}
+  import re
+  paras = [p_ for p_ in re.split(r'\n+', notes) if re.match(r'(?i)\s*(what is needed|needed|input needed|what it needs)', p_)] or \
+      [p_ for p_ in re.split(r'\n+', notes) if re.search(r'(?i)need|manifest', p_)] or ['(see notes)']
+  meta = {'seed': sid, 'property': prop, 'needs_to_manifest': paras[0].strip(), 'ran': [],
+          'confirmed_in': 'a fresh scratch git worktree of /repo under /tmp (tools/seed_ingest.py), removed afterwards', 'notes': notes.strip()}
   ok = True
   try:
     shutil.copy(demo, os.path.join(wt, '_demo.py'))
@@ -67,8 +71,30 @@ def main():
       ok = False
     r = sh(['git', 'apply', patch], cwd=wt)
     if r.returncode != 0:
+      # /repo may have moved on (fix: commits) since the change was written: try a 3-way merge of the hunks
+      r = sh(['git', 'apply', '--3way', patch], cwd=wt)
+      if r.returncode == 0:
+        sh(['git', 'reset', '-q'], cwd=wt)
+        rediff = sh(['git', 'diff'], cwd=wt).stdout
+        patch = os.path.join(wt, '_rebased.diff')
+        open(patch, 'w').write(rediff)
+        meta['ran'].append('patch re-based onto the current /repo HEAD with git apply --3way')
+    if r.returncode != 0:
       print('REJECT: patch does not apply: ' + r.stderr)
       ok = False
+    touched = [l[6:] for l in open(patch).read().splitlines() if l.startswith('+++ b/')]
+    if ok and (len(touched) != 1 or not touched[0].startswith('note_seq/') or touched[0].endswith('_test.py')):
+      print('REJECT: the change must touch exactly one library file, touches %s' % touched)
+      ok = False
+    if ok:
+      body = sorted(l for l in open(patch).read().splitlines() if l[:1] in '+-' and not l.startswith(('+++', '---')))
+      for other in sorted(os.listdir(os.path.join(VERIF, 'seeded'))):
+        op = os.path.join(VERIF, 'seeded', other, 'patch.diff')
+        if other != sid and os.path.isfile(op):
+          if sorted(l for l in open(op).read().splitlines() if l[:1] in '+-' and not l.startswith(('+++', '---'))) == body:
+            print('DUPLICATE: same edit as seeded/%s; not kept' % other)
+            ok = False
+            break
     if ok:
       imp = sh([PY, '-c', 'import note_seq, sys; print(note_seq.__file__)'], cwd=wt, env=dict(os.environ, PYTHONPATH=wt))
       if imp.returncode != 0 or wt not in imp.stdout:
@@ -88,6 +114,8 @@ def main():
       if lost:
         print('REJECT: the change breaks %d stable-pass tests, e.g. %s' % (len(lost), lost[:3]))
         ok = False
+    if ok:
+      kept_patch = open(patch).read()
   finally:
     sh(['git', '-C', '/repo', 'worktree', 'remove', '--force', wt])
     shutil.rmtree(wt, ignore_errors=True)
@@ -95,7 +123,7 @@ def main():
     return 1
   dst = os.path.join(VERIF, 'seeded', sid)
   os.makedirs(dst, exist_ok=True)
-  shutil.copy(patch, os.path.join(dst, 'patch.diff'))
+  open(os.path.join(dst, 'patch.diff'), 'w').write(kept_patch)
   shutil.copy(demo, os.path.join(dst, 'demo.py'))
   ev = sh([PY, os.path.join(VERIF, 'tools', 'seed_eval.py'), os.path.join(dst, 'patch.diff')], timeout=3000)
   print(ev.stdout[-1500:])
